@@ -71,12 +71,15 @@ def key_class(t):
 # --------------------------------------------------------------------------- roots and the pool
 
 class PoolLoadFailure(Machinery):
-    """paramiko could not load back a private key file that paramiko itself had just written (with the right
-    passphrase).  For C36 that is an observation to be judged (round trip), for other checks a machinery failure."""
+    """paramiko could not write / load a VALID private key file with its correct passphrase while the pool was
+    obtaining a key object (whatever the route: bundled file, file written by paramiko, OpenSSH-format file written
+    by `cryptography`, file object, from_path).  For C36 that is an observation to be judged by the trace spec
+    (round trip), for checks about other properties a machinery failure."""
 
-    def __init__(self, root, way, passphrase, exc):
-        Machinery.__init__(self, "cannot obtain file_pem key of %r via %s: %s: %s" % (root, way, type(exc).__name__, exc))
-        self.root, self.way, self.passphrase, self.exc = root, way, passphrase, exc
+    def __init__(self, root, prov, way, passphrase, exc, stage="load"):
+        Machinery.__init__(self, "cannot obtain %s key of %r via %s: %s failed: %s: %s" % (
+            prov, root, way, stage, type(exc).__name__, exc))
+        self.root, self.prov, self.way, self.passphrase, self.exc, self.stage = root, prov, way, passphrase, exc, stage
 
 
 class Root:
@@ -99,6 +102,7 @@ def _load_bundled(type_, rel, fmt, password, cert):
     root = Root(type_, "bundled:tests/" + rel, priv=priv if family(type_) != "ed25519" else None, path=str(path),
                 fmt=fmt, password=password, cert=str(path) + "-cert.pub" if cert else None)
     root.pub_id = _pub_id(priv)
+    root.cpriv = priv            # the `cryptography` private key, for every type
     return root
 
 
@@ -249,15 +253,17 @@ class KeyPool:
                 return cls(data=paramiko.pkey.PublicBlob.from_file(root.cert).key_blob)
             raise Machinery("unknown way " + way)
         # private key files
-        if way == "bundled":
-            return cls(filename=root.path, password=root.password)
-        if root.type == "ed25519":
+        if way == "bundled" or root.type == "ed25519":
             path, pw = root.path, root.password
         else:
             pw = "s3cr3t-ü" if way == "encrypted" else None
             path = self._tmp(prov)
             if prov == "file_pem":      # written by paramiko itself
-                self.base(root).write_private_key_file(path, password=pw)
+                writer = self.base(root)
+                try:
+                    writer.write_private_key_file(path, password=pw)
+                except Exception as e:
+                    raise PoolLoadFailure(root, prov, way, pw, e, stage="write")
             else:                        # OpenSSH format: paramiko cannot write it, `cryptography` can
                 enc = (ser.PrivateFormat.OpenSSH.encryption_builder().kdf_rounds(2).build(pw.encode())
                        if pw else ser.NoEncryption())
@@ -265,17 +271,15 @@ class KeyPool:
                 with open(path, "wb") as f:
                     f.write(text)
         try:
-            if way in ("filename", "encrypted"):
+            if way in ("filename", "encrypted", "bundled"):
                 return cls(filename=path, password=pw)
             if way == "file_obj":
                 with open(path) as f:
                     return cls.from_private_key(io.StringIO(f.read()), password=pw)
             if way == "from_path":
                 return paramiko.PKey.from_path(path, passphrase=pw.encode() if pw else None)
-        except Exception as e:
-            if prov == "file_pem" and root.type != "ed25519":     # written by paramiko a few lines above
-                raise PoolLoadFailure(root, way, pw, e)
-            raise
+        except Exception as e:           # a valid file, its correct passphrase
+            raise PoolLoadFailure(root, prov, way, pw, e)
         raise Machinery("unknown way " + way)
 
 
